@@ -117,7 +117,7 @@ func refTextMatch(tm *caldav.TextMatch, v string) tri {
 }
 
 func refParamFilter(f caldav.ParamFilter, p rProp) tri {
-	v, ok := p.Params[f.Name]
+	v, ok := p.Params[strings.ToUpper(f.Name)] // parameter names are case-insensitive (RFC 5545 2)
 	if f.IsNotDefined {
 		if f.TextMatch != nil {
 			return triOpen // mutually exclusive on the wire
@@ -495,6 +495,8 @@ func c06ParamFilters() []caldav.ParamFilter {
 		out = append(out, caldav.ParamFilter{Name: n, TextMatch: &caldav.TextMatch{Text: "en"}})
 		out = append(out, caldav.ParamFilter{Name: n, TextMatch: &caldav.TextMatch{Text: "en", NegateCondition: true}})
 	}
+	// parameter names written in another letter case
+	out = append(out, caldav.ParamFilter{Name: "language"}, caldav.ParamFilter{Name: "PartStat", TextMatch: &caldav.TextMatch{Text: "ACC"}})
 	return out
 }
 
